@@ -51,6 +51,10 @@ def distinct_labels(ctx, env):
                                             z3.Select(sp, i) != z3.Select(sp, j))))
 
 
+class NotAPosition:
+    """A look-up result that is neither an int nor a slice (e.g. a boolean mask)."""
+
+
 def install_solver_calls(interp, e, *, locate_kinds, solve_t_qualname='fsic.core.models.BaseModel.solve_t', extra=()):
     """Call contracts for solve_t and the span look-up; records the ghost call log."""
     ctx = interp.ctx
@@ -93,8 +97,8 @@ def install_solver_calls(interp, e, *, locate_kinds, solve_t_qualname='fsic.core
             if isinstance(r, SExc):
                 raise PyRaise(r)
             return r
-        kind = ctx.choose(3, 'locate') if locate_kinds == 'all' else 0
-        if kind in (1, 2):
+        kind = ctx.choose(4, 'locate') if locate_kinds == 'all' else 0
+        if kind in (1, 2, 3):
             # labels are pairwise distinct (precondition), so a label that is an element of the span has a single position:
             # a non-int result or KeyError only arises for a label that equals no element of the span
             ctx.assume(forall_range(0, env.n, lambda i: z3.Select(env.span.arr, i) != V.z3_of(label), 'absent'))
@@ -102,8 +106,10 @@ def install_solver_calls(interp, e, *, locate_kinds, solve_t_qualname='fsic.core
             exc = SExc(KeyError, origin='locate')
             g['located'][key] = exc
             raise PyRaise(exc)
-        if kind == 1:
-            r = slice(0, 1)
+        if kind in (1, 3):
+            # a slice (a year against a quarterly PeriodIndex) or any other value that is not a single position (pandas returns a boolean mask
+            # for a label that occurs several times in an unsorted index)
+            r = slice(0, 1) if kind == 1 else NotAPosition()
             g['located'][key] = r
             g['locate_order'].append((label, r))
             return r
@@ -140,7 +146,7 @@ class SolvePeriodContract(FunctionContract):
         e = call.entry
         loc = g['locate_order']
         ctx.prove(len(loc) <= 1, 'label_located_once', 'ensures')
-        located_int = bool(loc) and not isinstance(loc[0][1], slice)
+        located_int = bool(loc) and not isinstance(loc[0][1], (slice, NotAPosition))
         if out.kind == 'raise':
             if out.exc is g['solve_t_exc']:
                 ctx.prove(g['ncalls'] == 1, 'exception_of_solve_t_propagates_unchanged', 'raises')
@@ -284,7 +290,7 @@ class SolveContract(FunctionContract):
             ctx.prove(z3.Not(bad_minmax), 'min_iter_exceeding_max_iter_is_rejected', 'raises')
             if cls is KeyError:
                 ctx.cover('keyerror')
-                nonint = any(isinstance(r, slice) for _, r in loc) or getattr(out.exc, 'origin', '') == 'locate'
+                nonint = any(isinstance(r, (slice, NotAPosition)) for _, r in loc) or getattr(out.exc, 'origin', '') == 'locate'
                 ctx.prove(z3.And(z3.BoolVal(bool(nonint)), g['ncalls'] == 0),
                           'KeyError_only_for_start_or_end_without_a_single_position_before_anything_is_solved', 'raises')
                 return
@@ -297,7 +303,7 @@ class SolveContract(FunctionContract):
         ctx.cover('returned')
         ctx.prove(z3.Not(bad_minmax), 'min_iter_exceeding_max_iter_is_rejected', 'raises')
         ctx.prove(env.span.length > 0, 'empty_span_is_rejected', 'raises')
-        ctx.prove(z3.BoolVal(not any(isinstance(r, slice) for _, r in loc)), 'start_or_end_without_single_position_is_rejected', 'raises')
+        ctx.prove(z3.BoolVal(not any(isinstance(r, (slice, NotAPosition)) for _, r in loc)), 'start_or_end_without_single_position_is_rejected', 'raises')
         s, t_ = self._bounds(e, g)
         cnt = z3.If(t_ - s + 1 > 0, t_ - s + 1, z3.IntVal(0))
         k = g['ncalls']
@@ -326,11 +332,11 @@ class SolveContract(FunctionContract):
         defaults = first period with enough lags / last with enough leads."""
         env = e['env']
         loc = {('start' if V.is_sym(lab) and z3.eq(V.z3_of(lab), e['start']) else 'end' if e['end'] is not None and V.is_sym(lab) and z3.eq(V.z3_of(lab), e['end']) else 'default'): r
-               for lab, r in g['locate_order'] if not isinstance(r, slice)} if False else None
+               for lab, r in g['locate_order'] if not isinstance(r, (slice, NotAPosition))} if False else None
         s = env.lags
         t_ = env.n - 1 - env.leads
         for lab, r in g['locate_order']:
-            if isinstance(r, slice):
+            if isinstance(r, (slice, NotAPosition)):
                 continue
             if e['start'] is not None and V.is_sym(lab) and z3.eq(V.z3_of(lab), e['start']):
                 s = r
